@@ -87,6 +87,8 @@ func checkC10(p *core.Program, r *core.Report) {
 	r.Rule("O10.4", "decoder errors (number parsing, range, ReadFrom) propagate")
 	r.Rule("O10.6", "decoder range tests: Sign() < 0 (present, strict) and BitLen() > 256 — nothing else refuses a coordinate")
 	r.Rule("O10.7", "the decoded proof object is created (groth16.NewProof) by this call on every path before ReadFrom")
+	r.Rule("O10.8", "the number parser the decoder uses for each coordinate (imported from C16 O16.3/O16.4): big.Int.SetString on every path, failure exactly on !ok, prefix convention compatible with the encoder")
+	r.Rule("O10.9", "verify hands the decoder the whole document read from stdin (no size cap, no single line): every encoding the encoder can emit, with the framing prove adds, is decoded")
 	r.Rule("O10.5", "CLI: prove marshals through MarshalJSON; verify decodes into the proof type")
 	r.Trusted = append(r.Trusted, "gnark Proof.WriteRawTo order A.x A.y B.x1 B.x0 B.y1 B.y0 C.x C.y, 32 bytes each; ReadFrom accepts that encoding", "math/big SetBytes/Text/FillBytes", "encoding/json struct tags")
 	r.NotDecided = append(r.NotDecided, "that the decoded proof verifies", "gnark's coordinate order")
@@ -471,6 +473,19 @@ func checkC10(p *core.Program, r *core.Report) {
 			}
 		}
 	}
+	// O10.8: the coordinate parser is the one C16 governs (SetString on every path, failure ⇔ !ok, radix convention)
+	importRule(p, r, "O10.8", "C16", "O16.4", "each coordinate is parsed by big.Int.SetString with a prefix convention compatible with the encoder's")
+	importRule(p, r, "O10.8", "C16", "O16.3", "the coordinate parser fails exactly when SetString reports failure")
+	// O10.9: verify decodes the whole document it is given
+	for _, c := range cliCommands(p) {
+		if c.Name != "verify" {
+			continue
+		}
+		if a := actionSSA(p, c); a != nil {
+			r.Count("verify documents decoded", checkWholeDocument(p, r, "O10.9", "main.cmd:verify", a))
+		}
+	}
+	r.Floor("verify documents decoded", 1)
 	r.Floor("encoder slots", 8)
 	r.Floor("decoder slots", 8)
 	r.Floor("coordinate placements", 1)
